@@ -54,6 +54,7 @@ def main(argv):
                                   summary=summ[-1] if summ else c.stdout[-300:])
         finally:
             sh(["git", "checkout", "--", "."], cwd=REPO)
+            sh(["/venv/bin/python", "harness/translate_classes.py"], cwd=VERIF)   # the generated class table follows /repo again
         detected = [p for p, v in results.items() if v["exit"] == 1 and v["violations"] > 0]
         meta = dict(
             id=sid, property=prop,
